@@ -7,5 +7,6 @@ CONSTANTS
   ClearOnReadFail = TRUE
   CtxEarly = TRUE
   ClearLate = FALSE
+  SharedExtras = FALSE
   UseLock = TRUE
 INVARIANT Isolation
